@@ -86,7 +86,8 @@ class PersistentList(IPersistentList[T], ISeq[T], IWithMeta):
     def pop(self) -> "PersistentList[T]":
         if self.is_empty:
             raise IndexError("Cannot pop an empty list")
-        return cast(PersistentList, self.rest)
+        # unlike `rest`, popping the last element must still yield a list
+        return PersistentList(self._inner.rest)
 
 
 EMPTY: PersistentList = PersistentList(plist())
